@@ -491,9 +491,11 @@ class Hist:
             go("set", field=f, t=self.full_track)
         rest = [("rename", {}), ("setparent", {}), ("setparent", {"to_root": True}), ("mkroot", {}), ("mkroot_after", {}),
                 ("mksub", {}), ("mksub_after", {}), ("mktrack", {}), ("update", {}), ("addtrack", {}), ("rmtrackfrom", {}),
-                ("cleartracks", {"c": self.biggest_crate()}), ("rmtrack", {}), ("rmcrate", {})]
+                ("cleartracks", "biggest"), ("rmtrack", {}), ("rmcrate", {})]
         self.rng.shuffle(rest)
         for g, kw in rest:
+            if kw == "biggest":
+                kw = {"c": self.biggest_crate()}    # chosen when it runs: an earlier call may have removed crates
             if g == "setparent" and not kw:
                 for _ in range(12):     # a re-parenting under another crate (not to the root)
                     c = self.clone()
